@@ -100,10 +100,24 @@ def run(prog: Program, ctx: Ctx) -> None:  # noqa: PLR0912,PLR0915
     ctx.ob("R4", "kind_map|bijection", len(pairs) == 5 and len({a for a, _ in pairs}) == 5 and len({b for _, b in pairs}) == 5 and all(a.lower() == b.lower() for a, b in pairs),
            f"_kind_map maps the five inspect kinds to the same-named ParameterKind members: {pairs}", f"{prog.module(I).relpath}:{getattr(km, 'lineno', 0)}")
     cp = prog.function(f"{I}._convert_parameter")
-    src = ast.unparse(cp.node)
-    ctx.ob("R4", key(cp, "kind"), "_kind_map[parameter.kind]" in src, "kind converted through _kind_map", where(cp))
-    ctx.ob("R4", key(cp, "required"), "parameter.default is _empty" in src and "default = None" in src, "a signature parameter without default maps to default None (required)", where(cp))
-    ctx.ob("R4", key(cp, "name"), "name = parameter.name" in src or "parameter.name" in src, "the runtime name is kept", where(cp))
+    import inspect as _inspect
+
+    def _helper() -> None:  # a default value that is a function: rendered by its name
+        pass
+
+    for kind_, default_ in itertools.product(list(_inspect._ParameterKind), (_inspect.Parameter.empty, 1, "s", None, _helper)):  # type: ignore[attr-defined]
+        if kind_ in (_inspect.Parameter.VAR_POSITIONAL, _inspect.Parameter.VAR_KEYWORD) and default_ is not _inspect.Parameter.empty:
+            continue
+        sp = _inspect.Parameter("x", kind_, default=default_)
+        try:
+            o_ = it.call(cp, sp, Obj(None, {}))
+            got = (o_.attrs["name"], o_.attrs["kind"].name.split(".")[-1], o_.attrs["default"], o_.attrs["annotation"])
+        except Raised as r:
+            got = (f"raises {r.exc}",)
+        want_default = None if default_ is _inspect.Parameter.empty else ("_helper" if default_ is _helper else repr(default_))
+        want = ("x", kind_.name.lower(), want_default, None)
+        ctx.ob("R4", f"convert|{kind_.name}|default={'<none>' if default_ is _inspect.Parameter.empty else ('<function>' if default_ is _helper else repr(default_))}", got == want,
+               f"inspect.Parameter('x', {kind_.name}, default={'<empty>' if default_ is _inspect.Parameter.empty else default_!r}) converts to {got}; expected {want}", where(cp))
 
     # ------------------------------------------------------------------ R5 docstring source
     ctx.rule("R5", "the inspector reads the object's *own* __doc__ (never a docstring inherited through the MRO) and cleans it like the static side")
